@@ -21,7 +21,7 @@ UNITS = {
         {"name": "C04_BIN", "test": "TestC04_BIN", "quick": 300, "thorough": 6000, "shards": 4, "bin": True},
     ],
     "C05": [
-        {"name": "C05_BIN", "test": "TestC05_BIN", "quick": 200, "thorough": 4000, "shards": 8, "bin": True},
+        {"name": "C05_BIN", "test": "TestC05_BIN", "quick": 480, "thorough": 4000, "shards": 8, "bin": True},
     ],
     "C06": [
         {"name": "C06_INP", "test": "TestC06_INP", "quick": 1500, "thorough": 20000, "shards": 12},
